@@ -80,7 +80,7 @@ def pcrun (n m c items : Nat) (bc : Bool) (seed spur : Nat) : String :=
   let s0 := initState thr
   let fuel := 40 * (n * items + 1) * (n + m + 2) + 8 * spur + 100
   let (s, steps, ok) := schedRun cfg (lcg seed) fuel 0 spur s0 true
-  let st := if !ok then "UNSAFE" else if isFinal s then "final" else if (enabled cfg s).all Label.isSpurious then "DEADLOCK" else "fuel"
+  let st := if !ok then "VIOLATED" else if isFinal s then "final" else if (enabled cfg s).all Label.isSpurious then "DEADLOCK" else "fuel"
   "pcrun " ++ st ++ " consumed=" ++ toString s.consumed.length ++ " produced=" ++ toString s.produced.length
     ++ " inorder=" ++ (if s.consumed = s.produced then "1" else "0") ++ " steps=" ++ toString steps
 
